@@ -1154,6 +1154,9 @@ class Evaluator:
                 return ("if-diverges", ckey(c))
             return
         if k == "Match":
+            if getattr(self, "watch", None):
+                # watched calls inside the scrutinee (e.g. `match f(x) {..}`, `f(x)?`)
+                self._collect(tb, n["scrut"], env, depth, None, out, guard, path)
             try:
                 v = self.eval(tb, n["scrut"], env, depth)
             except Unsupported:
